@@ -521,3 +521,147 @@ def _syms(st):
     for t in st["vars"].values():
         out |= set(t)
     return out
+
+
+# ---------------------------------------------------------------------------------------------
+# S4: the unwraps in the navigation code are justified by a typestate argument that the code itself carries
+
+NAV_FNS = ("savefile::Introspector::dive", "savefile::Introspector::do_introspect", "savefile::IntrospectionResult::total_index",
+           "savefile::IntrospectionResult::total_index_impl", "savefile::IntrospectionResult::format_result_row")
+
+
+def _path_str(n):
+    from ..ir import path_of
+    p = path_of(n)
+    return ".".join(x.split("#")[0] for x in p) if p else None
+
+
+def _conjuncts(c):
+    c = peel_block(peel(c))
+    if c.get("k") == "Logic" and c.get("op") == "And":
+        return _conjuncts(c["l"]) + _conjuncts(c["r"])
+    return [c]
+
+
+@rule("S4", ["C17"], floor=3, doc="navigation never panics, unwrap sites: every Option::unwrap/expect in Introspector::dive / do_introspect / "
+      "total_index is justified by the code around it: (a) `x.take().unwrap()` in a loop runs at most once per call because it is "
+      "guarded by `flag.is_none()` and the branch sets `flag = Some(..)` first, with no reset of the flag; (b) `v.last_mut().unwrap()` "
+      "/ `v.pop().unwrap()` follows a push to the same vector (directly, or through a boolean that is only set next to such a push)")
+def s4(facts, tier):
+    from ..flow import parent_map
+    for fid in NAV_FNS:
+        f = facts.fns.get(fid)
+        if f is None or not f.get("body"):
+            continue
+        pm = parent_map(f["body"])
+
+        def ancestors(n):
+            p = pm.get(id(n))
+            while p is not None:
+                yield p
+                p = pm.get(id(p))
+
+        def preceding_in_blocks(n):
+            """statements that are executed before n on every path through the enclosing blocks (straight-line predecessors)"""
+            chain = [n] + list(ancestors(n))
+            for i, a in enumerate(chain):
+                if a.get("k") == "Block":
+                    inner = chain[i - 1] if i > 0 else None
+                    for s in a["stmts"]:
+                        if s is inner or any(s is c for c in chain[:i]):
+                            break
+                        yield s
+                if a.get("k") in ("Loop", "For", "Closure"):
+                    break
+
+        ord_ = 0
+        for x in walk(f["body"]):
+            if x.get("k") != "Call":
+                continue
+            c = callee(x) or ""
+            if c not in ("core::option::Option::unwrap", "core::option::Option::expect", "core::result::Result::unwrap", "core::result::Result::expect"):
+                continue
+            if x.get("from_expansion"):
+                continue
+            ord_ += 1
+            recv = peel_block(peel(x["args"][0]))
+            rc = callee(recv) or "" if recv.get("k") == "Call" else ""
+            key = f"{fid.split('::')[-1]}:unwrap#{ord_}:{rc.rsplit('::', 1)[-1] or 'value'}"
+            why = None
+            ok = False
+            if rc.endswith("Option::take") and recv.get("args"):
+                # (a) once-guard
+                in_loop = any(a.get("k") in ("Loop", "For") for a in ancestors(x))
+                flag = None
+                for a in ancestors(x):
+                    if a.get("k") == "If" and any(x is y for y in walk(a["t"])):
+                        for cj in _conjuncts(a["c"]):
+                            if cj.get("k") == "Call" and (callee(cj) or "").endswith("Option::is_none") and cj.get("args"):
+                                p = _path_str(cj["args"][0])
+                                if p is None:
+                                    continue
+                                # the branch assigns Some(..) to the flag before the site
+                                sets = False
+                                for s in preceding_in_blocks(x):
+                                    for y in walk(s):
+                                        if y.get("k") == "Assign" and _path_str(y["l"]) == p:
+                                            r = peel_block(peel(y["r"]))
+                                            if r.get("k") == "Adt" and r.get("variant") == "Some":
+                                                sets = True
+                                # no reset anywhere in the function
+                                resets = False
+                                for y in walk(f["body"]):
+                                    if y.get("k") == "Assign" and _path_str(y["l"]) == p:
+                                        r = peel_block(peel(y["r"]))
+                                        if not (r.get("k") == "Adt" and r.get("variant") == "Some"):
+                                            resets = True
+                                    if y.get("k") == "Call" and (callee(y) or "").endswith(("Option::take", "Option::replace")) and y.get("args") \
+                                            and _path_str(y["args"][0]) == p:
+                                        resets = True
+                                if sets and not resets:
+                                    flag = p
+                    if a.get("k") in ("Loop", "For"):
+                        break
+                ok = (not in_loop) or flag is not None
+                why = (f"runs at most once per call: guarded by `{flag}.is_none()` and the branch sets `{flag} = Some(..)` first" if flag else
+                       "not inside a loop" if not in_loop else
+                       "`take()` empties the option, and nothing on the way to this site ensures it is reached only once per call: the second "
+                       "time round the loop `unwrap()` hits None")
+            elif rc.endswith(("::last_mut", "::last", "::pop", "::first", "::first_mut")) and recv.get("args"):
+                vp = _path_str(recv["args"][0])
+                pushed = False
+                for s in preceding_in_blocks(x):
+                    for y in walk(s):
+                        if y.get("k") == "Call" and (callee(y) or "").endswith(("::push", "::insert")) and y.get("args") and _path_str(y["args"][0]) == vp:
+                            pushed = True
+                        elif y.get("k") == "Call" and (callee(y) or "").endswith(("::pop", "::clear", "::drain", "::truncate", "::remove")) and y.get("args") \
+                                and _path_str(y["args"][0]) == vp:
+                            pushed = False
+                flagged = None
+                if not pushed:
+                    # through a boolean that is only ever set true right after a push to the same vector
+                    for a in ancestors(x):
+                        if a.get("k") == "If" and any(x is y for y in walk(a["t"])):
+                            for cj in _conjuncts(a["c"]):
+                                cj = peel(cj)
+                                if cj.get("k") == "Var":
+                                    sets_ok, any_set = True, False
+                                    for y in walk(f["body"]):
+                                        if y.get("k") == "Assign" and peel(y["l"]).get("k") == "Var" and peel(y["l"])["v"] == cj["v"]:
+                                            r = peel(y["r"])
+                                            if r.get("k") == "Lit" and r.get("int") == 1:
+                                                any_set = True
+                                                if not any(z.get("k") == "Call" and (callee(z) or "").endswith("::push") and z.get("args")
+                                                           and _path_str(z["args"][0]) == vp for s in preceding_in_blocks(y) for z in walk(s)):
+                                                    sets_ok = False
+                                    if any_set and sets_ok:
+                                        flagged = cj["v"].split("#")[0]
+                ok = pushed or flagged is not None
+                why = (f"follows a push to `{vp}` in the same straight-line code" if pushed else
+                       f"only reached when `{flagged}` is set, which happens only right after a push to `{vp}`" if flagged else
+                       f"no push to `{vp}` is known to precede it")
+            else:
+                why = "no typestate argument recognised for this unwrap"
+            yield ob(["C17"], "S4", key, "pass" if ok else ("violation" if rc.endswith(("Option::take", "::last_mut", "::last", "::pop")) else "undecided"),
+                     where(f, x), f"{fid}: `{rc.rsplit('::', 1)[-1] or 'value'}().unwrap()` {why}" if ok else
+                     f"{fid}: `{rc.rsplit('::', 1)[-1] or 'value'}().unwrap()` can panic: {why}")
